@@ -694,6 +694,34 @@ func c09GeneratedDecls(rt *rapid.T) *c09Case {
 	return cs
 }
 
+// c09Unplaceable: a change with a package clause (a rename) or imports on its
+// '-' and '+' lines whose code occurs in the file only where the '+' code
+// cannot stand (a field name, the name after a dot): it rewrites nothing, in
+// a run of its own as in a run with others. The other changes do rewrite the
+// file.
+func c09Unplaceable(rt *rapid.T) *c09Case {
+	cs := &c09Case{Family: "synthetic-unplaceable"}
+	cs.File = "package store\n\nimport \"example.com/opts\"\n\ntype Options struct{ Timeout int }\n\nfunc f(o Options) int {\n\tOpen(1)\n\topts.Use()\n\treturn o.Timeout\n}\n"
+	a := rapid.SampledFrom([]string{
+		"@@\n@@\n-package store\n+package storev2\n\n-Timeout\n+Options.Timeout\n",
+		"@@\n@@\n-import \"example.com/opts\"\n+import \"example.com/options\"\n\n-Timeout\n+options.Timeout\n",
+		"@@\n@@\n-package store\n+package storev2\n\n-import \"example.com/opts\"\n+import \"example.com/options\"\n\n-Timeout\n+options.Default.Timeout\n",
+	}).Draw(rt, "unplaceable")
+	b := "@@\nvar x expression\n@@\n-Open(x)\n+OpenContext(ctx, x)\n"
+	c := "@@\n@@\n package store\n\n-opts.Use()\n+opts.Used()\n"
+	switch rapid.IntRange(0, 3).Draw(rt, "order") {
+	case 0:
+		cs.Changes = []string{a, b}
+	case 1:
+		cs.Changes = []string{b, a}
+	case 2:
+		cs.Changes = []string{a, b, c}
+	default:
+		cs.Changes = []string{b, a, c}
+	}
+	return cs
+}
+
 // c09Signatures: an earlier change writes the result list of a function
 // (none, one unnamed, one named, several; spelled out or what an elision
 // leaves over), a later change has that signature on its context lines,
@@ -830,13 +858,15 @@ func TestC09(t *testing.T) {
 				cs = c09Focused(rt)
 			} else if k == 2 {
 				cs = c09Emptied(rt)
-				switch rapid.IntRange(0, 6).Draw(rt, "otherSynthetic") {
+				switch rapid.IntRange(0, 7).Draw(rt, "otherSynthetic") {
 				case 0:
 					cs = c09Unprintable(rt)
 				case 1, 2:
 					cs = c09Shadow(rt)
 				case 3, 4:
 					cs = c09GeneratedDecls(rt)
+				case 7:
+					cs = c09Unplaceable(rt)
 				case 5:
 					cs = c09Signatures(rt)
 				case 6:
